@@ -12,6 +12,10 @@ def origin(exc):
     'sut' if it comes out of canopen (or the stdlib on canopen's behalf)."""
     if isinstance(exc, (HarnessError, Hang, Violation)):
         return "harness"
+    if getattr(exc, "injected_fault", False):
+        # an error the simulator raised on purpose in the place of a driver (fault injection): what the code
+        # under test makes of it is the code's behaviour
+        return "sut"
     tb = exc.__traceback__
     last = None
     while tb is not None:
